@@ -224,7 +224,7 @@ class World(c01.World):
     def expected_probes(self, tier):
         return ['contact_point_on_grid', 'unflagged_PercusYevick_core', 'unflagged_HyperNettedChain_core', 'flagged_MeanSphericalApproximation',
                 'flagged_MartynovSarkisov', 'flagged_PercusYevick', 'flagged_HyperNettedChain', 'adversarial_gamma', 'mixed_hard_soft',
-                'closure_evals_checked', 'callbacks_checked', 'last_eval_differs_from_root', 'converged', 'core_checked_after_postprocessing']
+                'closure_evals_checked', 'callbacks_checked', 'last_eval_differs_from_root', 'converged', 'core_checked_after_postprocessing', 'post_second_virial', 'post_structure_factor', 'same_object_solved_again']
 
     def rule(self):
         return ('Generator of C01 restricted to systems with >= 1 hard-core pair (HS/HCLJ/Exponential closed with un-flagged PY/HNC, or any '
